@@ -33,3 +33,102 @@ func Harness_C01_immediate_parent() {
 	vr.Assert("immediateParent==Parent(level-1)", ci.immediateParent() == ci.Parent(ci.Level()-1))
 	vr.Reach("end")
 }
+
+// Children partition the parent's leaf range in curve order.
+func Harness_C01_children() {
+	ci := vrValidCellID("ci")
+	vr.Assume(!ci.IsLeaf())
+	ch := ci.Children()
+	lvl := ci.Level()
+	ok := true
+	for k := 0; k < 4; k++ {
+		ok = vr.And(ok, vr.And(ch[k].IsValid(), vr.And(ch[k].Level() == lvl+1, ch[k].immediateParent() == ci)))
+		ok = vr.And(ok, ch[k].ChildPosition(lvl+1) == k)
+	}
+	vr.Assert("children valid, one level down, parent is ci, ChildPosition = k", ok)
+	vr.Assert("first child starts the parent's range", ch[0].RangeMin() == ci.RangeMin())
+	vr.Assert("last child ends the parent's range", ch[3].RangeMax() == ci.RangeMax())
+	vr.Assert("children are contiguous", vr.And(ch[0].RangeMax()+2 == ch[1].RangeMin(), vr.And(ch[1].RangeMax()+2 == ch[2].RangeMin(), ch[2].RangeMax()+2 == ch[3].RangeMin())))
+	vr.Assert("ChildBegin/Next/ChildEnd enumerate the children", vr.And(vr.And(ci.ChildBegin() == ch[0], ch[0].Next() == ch[1]), vr.And(vr.And(ch[1].Next() == ch[2], ch[2].Next() == ch[3]), ch[3].Next() == ci.ChildEnd())))
+	l := vr.Int("l")
+	vr.Assume(vr.And(l >= lvl, l <= MaxLevel))
+	b, e := ci.ChildBeginAtLevel(l), ci.ChildEndAtLevel(l)
+	vr.Assert("ChildBeginAtLevel is the first descendant at that level", vr.And(b.Level() == l, b.RangeMin() == ci.RangeMin()))
+	vr.Assert("ChildEndAtLevel is one past the last descendant", vr.And(e.Prev().RangeMax() == ci.RangeMax(), e.Prev().Level() == l))
+	vr.Reach("end")
+}
+
+// Containment/intersection are range relations; ranges nest or are disjoint.
+func Harness_C01_ranges() {
+	a, b := vrValidCellID("a"), vrValidCellID("b")
+	inc := vr.And(a.RangeMin() <= b.RangeMin(), b.RangeMax() <= a.RangeMax())
+	ovl := vr.And(a.RangeMin() <= b.RangeMax(), b.RangeMin() <= a.RangeMax())
+	vr.Assert("Contains ⇔ range inclusion", a.Contains(b) == inc)
+	vr.Assert("Intersects ⇔ range overlap", a.Intersects(b) == ovl)
+	vr.Assert("laminar: overlapping cells nest", vr.Implies(ovl, vr.Or(a.Contains(b), b.Contains(a))))
+	vr.Assert("contains ⇒ not deeper", vr.Implies(a.Contains(b), a.Level() <= b.Level()))
+	vr.Assert("Next/Prev inverse", a.Next().Prev() == a)
+	lv, ok := a.CommonAncestorLevel(b)
+	vr.Assert("CommonAncestorLevel: same face ⇔ ok", ok == (a.Face() == b.Face()))
+	if ok {
+		vr.Assert("common ancestor contains both", vr.And(lv <= a.Level(), vr.And(lv <= b.Level(), a.Parent(lv) == b.Parent(lv))))
+		vr.Assert("common ancestor is the deepest one", vr.Or(lv == a.Level(), vr.Or(lv == b.Level(), a.Parent(lv+1) != b.Parent(lv+1))))
+	}
+	vr.Reach("end")
+}
+
+func Harness_C01_facepos_wrap() {
+	ci := vrValidCellID("ci")
+	vr.Assert("FromFacePosLevel(Face,Pos,Level) == ci", CellIDFromFacePosLevel(ci.Face(), ci.Pos(), ci.Level()) == ci)
+	f := vr.Int("f")
+	vr.Assume(vr.And(f >= 0, f < 6))
+	fc := CellIDFromFace(f)
+	vr.Assert("CellIDFromFace is the level-0 cell of that face", vr.And(fc.IsValid(), vr.And(fc.Level() == 0, fc.Face() == f)))
+	n, p := ci.NextWrap(), ci.PrevWrap()
+	vr.Assert("NextWrap/PrevWrap stay valid at the same level", vr.And(vr.And(n.IsValid(), p.IsValid()), vr.And(n.Level() == ci.Level(), p.Level() == ci.Level())))
+	vr.Assert("NextWrap/PrevWrap inverse", vr.And(n.PrevWrap() == ci, p.NextWrap() == ci))
+	k := vr.Int64("k")
+	vr.Assume(vr.And(k >= -3, k <= 3))
+	want := ci
+	for s := int64(0); s < 3; s++ {
+		want = CellID(vr.IteU64(k > s, uint64(want.NextWrap()), uint64(want)))
+	}
+	for s := int64(0); s < 3; s++ {
+		want = CellID(vr.IteU64(-k > s, uint64(want.PrevWrap()), uint64(want)))
+	}
+	vr.Assert("AdvanceWrap(k) == k applications of NextWrap/PrevWrap (|k|<=3)", ci.AdvanceWrap(k) == want)
+	vr.Reach("end")
+}
+
+// Hilbert tables: leaf id -> (face,i,j) -> leaf id is the identity, and back.
+func Harness_C01_hilbert_roundtrip() {
+	ci := vrLeaf("ci")
+	f, i, j, _ := ci.faceIJOrientation()
+	vr.Assert("ij in range", vr.And(vr.And(i >= 0, i < MaxSize), vr.And(j >= 0, j < MaxSize)))
+	vr.Assert("cellIDFromFaceIJ(faceIJOrientation(ci)) == ci", cellIDFromFaceIJ(f, i, j) == ci)
+	vr.Reach("end")
+}
+
+func Harness_C01_hilbert_roundtrip_ij() {
+	f := vr.Int("f")
+	i, j := vr.Int("i"), vr.Int("j")
+	vr.Assume(vr.And(f >= 0, f < 6))
+	vr.Assume(vr.And(vr.And(i >= 0, i < MaxSize), vr.And(j >= 0, j < MaxSize)))
+	ci := cellIDFromFaceIJ(f, i, j)
+	f2, i2, j2, _ := ci.faceIJOrientation()
+	vr.Assert("leaf and valid", vr.And(ci.IsValid(), ci.IsLeaf()))
+	vr.Assert("faceIJOrientation(cellIDFromFaceIJ(f,i,j)) == (f,i,j)", vr.And(f2 == f, vr.And(i2 == i, j2 == j)))
+	vr.Reach("end")
+}
+
+// Consecutive leaves on a face share an edge: (i,j) differ by exactly 1 in one coordinate.
+func Harness_C01_curve_continuity() {
+	ci := vrLeaf("ci")
+	n := ci.Next()
+	vr.Assume(vr.And(n.IsValid(), n.Face() == ci.Face()))
+	_, i, j, _ := ci.faceIJOrientation()
+	_, i2, j2, _ := n.faceIJOrientation()
+	di, dj := i2-i, j2-j
+	vr.Assert("consecutive leaves are edge-adjacent", vr.Or(vr.And(dj == 0, vr.Or(di == 1, di == -1)), vr.And(di == 0, vr.Or(dj == 1, dj == -1))))
+	vr.Reach("end")
+}
